@@ -1,7 +1,170 @@
+#![allow(dead_code)]
+//! vsim — deterministic simulator for huginn-net.
+//!
+//!   vsim run <PROP> [--tier quick|thorough] [--seed N] [--jobs N] [--evidence PATH] [--out DIR] [--runs N]
+//!   vsim hashes <PROP> [--runs N] [--jobs N] [--seed N]     per-run event-log hashes (determinism self-test)
+//!   vsim replay <FILE>                                      re-run exactly the scenario in a replay file
+//!   vsim list                                               properties this build (engine) serves
+//!
+//! Built twice from the same sources: without cfg huginn_net_verif_sched it is the `netsim`
+//! engine (discrete-event packet path, real std); with it, the `poolsim` engine (real worker pools
+//! under shuttle's scheduler).
+
+mod gen;
+mod pkt;
+mod props;
+mod rng;
+mod runner;
+mod sut;
+
+use runner::{Opts, Prop, ReplayFile, Tier};
+
+macro_rules! for_props {
+    ($m:ident) => {
+        #[cfg(not(huginn_net_verif_sched))]
+        {
+            $m!(props::c08::C08);
+        }
+        #[cfg(huginn_net_verif_sched)]
+        {}
+    };
+}
+
+fn engine() -> &'static str {
+    if cfg!(huginn_net_verif_sched) {
+        "poolsim"
+    } else {
+        "netsim"
+    }
+}
+
+fn dispatch_run(id: &str, o: &Opts) -> Option<i32> {
+    macro_rules! try_run {
+        ($t:ty) => {
+            if <$t as Prop>::ID == id {
+                return Some(runner::run_batch::<$t>(o));
+            }
+        };
+    }
+    for_props!(try_run);
+    None
+}
+
+fn dispatch_replay(path: &str, rf: &ReplayFile) -> Option<i32> {
+    macro_rules! try_replay {
+        ($t:ty) => {
+            if <$t as Prop>::ID == rf.property && <$t as Prop>::ENGINE == rf.engine {
+                return Some(runner::replay::<$t>(path, rf));
+            }
+        };
+    }
+    for_props!(try_replay);
+    None
+}
+
 fn main() {
-    huginn_net_verif_rt::clock::arm(1_700_000_000_000);
-    let db = huginn_net_db::Database::load_default().unwrap();
-    println!("db ok {}", db.tcp_request.entries.len());
-    #[cfg(huginn_net_verif_sched)]
-    println!("sched build");
+    runner::install_panic_hook();
+    let args: Vec<String> = std::env::args().collect();
+    let cmd = args.get(1).map(|s| s.as_str()).unwrap_or("");
+    let mut tier = match std::env::var("VERIF_TIER").as_deref() {
+        Ok("thorough") => Tier::Thorough,
+        _ => Tier::Quick,
+    };
+    let mut seed: u64 = std::env::var("VERIF_SEED").ok().and_then(|s| s.parse().ok()).unwrap_or(20260926);
+    let mut jobs: usize = std::env::var("VERIF_JOBS").ok().and_then(|s| s.parse().ok()).unwrap_or_else(|| std::thread::available_parallelism().map(|n| n.get()).unwrap_or(4));
+    let mut evidence = None;
+    let mut out_dir = format!("{}/out/replays", runner::verif_root());
+    let mut runs_override = None;
+    let mut budget_s = std::env::var("VERIF_BUDGET_S").ok().and_then(|s| s.parse().ok());
+    let mut i = 3;
+    while i < args.len() {
+        let a = args[i].as_str();
+        let val = args.get(i + 1).cloned().unwrap_or_default();
+        match a {
+            "--tier" => {
+                tier = if val == "thorough" { Tier::Thorough } else { Tier::Quick };
+                i += 1;
+            }
+            "--seed" => {
+                seed = val.parse().unwrap_or(seed);
+                i += 1;
+            }
+            "--jobs" => {
+                jobs = val.parse().unwrap_or(jobs);
+                i += 1;
+            }
+            "--evidence" => {
+                evidence = Some(val);
+                i += 1;
+            }
+            "--out" => {
+                out_dir = val;
+                i += 1;
+            }
+            "--runs" => {
+                runs_override = val.parse().ok();
+                i += 1;
+            }
+            "--budget" => {
+                budget_s = val.parse().ok();
+                i += 1;
+            }
+            _ => {
+                eprintln!("unknown argument {}", a);
+                std::process::exit(2);
+            }
+        }
+        i += 1;
+    }
+    let jobs = jobs.max(1);
+    match cmd {
+        "list" => {
+            macro_rules! show {
+                ($t:ty) => {
+                    println!("{} {}", <$t as Prop>::ID, <$t as Prop>::ENGINE);
+                };
+            }
+            for_props!(show);
+            let _ = engine();
+        }
+        "run" | "hashes" => {
+            let id = args.get(2).cloned().unwrap_or_default();
+            let o = Opts { tier, seed, jobs, evidence, out_dir, runs_override, hashes_only: cmd == "hashes", budget_s };
+            match dispatch_run(&id, &o) {
+                Some(c) => std::process::exit(c),
+                None => {
+                    eprintln!("property {} is not served by the {} engine", id, engine());
+                    std::process::exit(2);
+                }
+            }
+        }
+        "replay" => {
+            let path = args.get(2).cloned().unwrap_or_default();
+            let s = match std::fs::read_to_string(&path) {
+                Ok(s) => s,
+                Err(e) => {
+                    eprintln!("cannot read {}: {}", path, e);
+                    std::process::exit(2);
+                }
+            };
+            let rf: ReplayFile = match serde_json::from_str(&s) {
+                Ok(r) => r,
+                Err(e) => {
+                    eprintln!("cannot parse {}: {}", path, e);
+                    std::process::exit(2);
+                }
+            };
+            match dispatch_replay(&path, &rf) {
+                Some(c) => std::process::exit(c),
+                None => {
+                    eprintln!("replay file is for property {} engine {}, not served by this ({}) build", rf.property, rf.engine, engine());
+                    std::process::exit(3);
+                }
+            }
+        }
+        _ => {
+            eprintln!("usage: vsim run|hashes <PROP> [opts] | replay <FILE> | list");
+            std::process::exit(2);
+        }
+    }
 }
